@@ -12,6 +12,10 @@ Bad(e) ==
                  <<"C07:equal_iff_same_object", I2(h)>>,
                  <<"C07:complement_involution_no_fixed_point", I3(h)>>,
                  <<"C07:language_independent_of_history", NoPanic(h) => I4(h)>>})
+    [] e.op = "scale_history" ->
+         \* a term with more than 2^16 derivative classes: only the membership answers are logged
+         Failed({<<"C07:no_panic", NoPanic(e.events)>>,
+                 <<"C07:language_independent_of_history", NoPanic(e.events) => I4s(e.events, e.shared)>>})
     [] OTHER -> {"unknown_event"}
 
 Init == TInit
